@@ -31,6 +31,7 @@ type GenOpts struct {
 	ChainBias        bool // prefer depending on recently generated services (deeper chains)
 	AltImpl          bool // interface-typed outputs whose concrete implementation alternates between invocations
 	Drops            bool // one identity of a multi-identity registration is removed again right after the call
+	EmbedIn          bool // parameter objects that declare a dependency through an embedded field (static constructors)
 	OptionalBias     bool // half of the dependencies on registered services are optional
 	NamedVoid        bool // initializer functions registered with a name (resolvable as a keyed empty struct)
 	PreBuild         bool // the collection is built (and the provider used and closed) once before all registrations are in
@@ -38,7 +39,7 @@ type GenOpts struct {
 
 func FullOpts() GenOpts {
 	return GenOpts{MinRegs: 1, MaxRegs: 9, Multi: true, Out: true, OutGroupFields: true, Instance: true, Void: true, As: true, MultiAs: true,
-		Groups: true, Keys: true, MultiGroup: true, OptionalMissing: true, Builtins: true, Err: true, Iface: true, MaxDeps: 3, NilOuts: true, AltImpl: true, Drops: true, PreBuild: true, NamedVoid: true, VoidAnyLife: true}
+		Groups: true, Keys: true, MultiGroup: true, OptionalMissing: true, Builtins: true, Err: true, Iface: true, MaxDeps: 3, NilOuts: true, AltImpl: true, Drops: true, PreBuild: true, NamedVoid: true, VoidAnyLife: true, EmbedIn: true}
 }
 
 // NeverType is a concrete type id that generated configurations never provide.
@@ -407,6 +408,9 @@ func GenConfig(t *rapid.T, o GenOpts) *Config {
 			}
 		}
 		regs = append(regs, r)
+	}
+	if o.EmbedIn {
+		genEmbeds(t, regs)
 	}
 	if o.Drops {
 		genDrops(t, regs)
